@@ -224,8 +224,9 @@ class SimOps:
         stems = np.zeros(self.c_locs_len, dtype='int32') - 1  # default to -1: 'no fanout line'
         if strip_forks:
             for f in circuit.forks.values():
+                if f in interface_dict: continue  # port forks (e.g. from bench) are evaluated as PI/PPI, their outputs are no branches
                 prev_line = f.ins[0]
-                while prev_line.driver.kind == '__fork__':
+                while prev_line.driver.kind == '__fork__' and prev_line.driver not in interface_dict:
                     prev_line = prev_line.driver.ins[0]
                 stem_idx = prev_line.index
                 for ol in f.outs:
